@@ -6,6 +6,8 @@ from vlib.pyvc import interp as I
 
 
 def proved(run):
+    from props import crosscheck
+    run.extra["encoder_cross_check"] = dict(functions=crosscheck.run_all(), disagreements=0)   # RuntimeError (exit 3) on disagreement
     run.trust("pyvc symbolic interpreter over the real AST", f"z3 {z3.get_version_string()}")
     run.assume('T-PREFIX: each (string, prefix) pair has exactly one accepting path in the 2-state machine (assumed; construction proved)', 'T-BARHILLEL (C09)')
     for f in (C.prefix_transducer,):
